@@ -261,6 +261,41 @@ def random_trace(rng, idx, seed, smax):
     return {"hdr": hdr_out, "ev": evs}
 
 
+def inhom_trace(rng, idx, seed):
+    """the functional inhomogeneous_poisson_bernoulli_approx: per-step rates (zero / fractional / saturating), a few
+    encodes and reproducibility re-runs from a restored generator state"""
+    from ..impl_encoder import InhomImpl
+    tick = rng.choice(TICKS)
+    D = rng.choice([1, 2, 4])
+    hdr = {"kind": "bern", "S": 1, "D": D, "r": 0, "M": rng.randint(1, 6 * D), "comp": False, "tick": tick,
+           "seed": seed * 100003 + 50000 + idx, "function": "inhomogeneous_poisson_bernoulli_approx"}
+    impl = InhomImpl(hdr)
+    tgen = torch.Generator().manual_seed(hdr["seed"] + 7)
+    steps = rng.randint(2, 9)
+    shape = (steps,) + tuple(rng.choice(SHAPES))
+    xs = [_random_input(rng, tgen, shape) for _ in range(2)]
+    xids = [impl.add_input(x) for x in xs]
+    init = impl.project()
+    evs, done, st = [], [], init
+    for _ in range(rng.randint(3, 6)):
+        if done and rng.random() < 0.4:
+            g0, xid = rng.choice(done)
+            op = {"a": "restore_gen", "g": g0}
+            ret = impl.apply(op)
+            st = impl.project()
+            evs.append({"op": op, "ret": ret, "st": st})
+            op = _encode_op(impl, xid, False)
+        else:
+            xid = rng.choice(xids)
+            op = _encode_op(impl, xid, False)
+            done.append((st["gen"], xid))
+        ret = impl.apply(op)
+        st = impl.project()
+        evs.append({"op": op, "ret": ret, "st": st})
+    return {"hdr": {"init": init, "cfg": hdr, "waive": [], "inputs": [x.reshape(-1).tolist() for x in xs],
+                    "shape": list(shape)}, "ev": evs}
+
+
 def _encode_op(impl, xid, online):
     x = impl.inputs[xid - 1]
     return {"a": "encode", "online": online, "xid": xid, "xshape": list(x.shape), "xc": impl.classes(x)}
@@ -273,6 +308,8 @@ def _signature(trace, r):
     clauses = sorted(diag.get("clauses", [])) or ["NoSchedule"]
     op = ev["op"]
     sig = {"clause": "+".join(clauses), "op": op["a"], "kind": kind}
+    if trace["hdr"]["cfg"].get("function"):
+        sig["function"] = trace["hdr"]["cfg"]["function"]
     if op["a"] == "encode":
         sig["site"] = f"{SITE[kind]}.forward"
         sig["online"] = bool(op["online"])
@@ -456,6 +493,7 @@ def run(tier: str, seed: int) -> int:
     ntr = 256 if tier == "quick" else 4000
     smax = 12 if tier == "quick" else 24
     traces = [random_trace(rng, i, seed, smax) for i in range(ntr)]
+    traces += [inhom_trace(rng, i, seed) for i in range(24 if tier == "quick" else 300)]
     chk.sample({"kind": "trace", "hdr": traces[0]["hdr"]["cfg"], "first_events": traces[0]["ev"][:2]})
     validate(chk, traces, "random-executions", shards=8 if tier == "quick" else 16)
     enc = sum(1 for t in traces for e in t["ev"] if e["op"]["a"] == "encode")
